@@ -7,6 +7,7 @@ import tables
 EN_BASES = ['S', 'NP', 'N', 'PP', ',', 'conj']
 EN_FEATS = [None, 'X', 'nb', 'dcl', 'b']
 SLASHES = ['/', '\\', '|']
+PUNCT_BASES = [',', '.', ';', ':', 'LRB', 'RRB', 'conj', '*START*', '*END*']
 
 
 def en_atoms(bases=EN_BASES, feats=EN_FEATS):
@@ -120,7 +121,8 @@ def perturb(rng, c, feats, slashes=SLASHES):
     if kind < 0.7 or not c.is_functor:
         k = rng.randrange(n)
         f = rng.choice(feats)
-        return map_atoms(c, lambda i, a: Atom(a.base, f) if i == k else a)
+        # punctuation atoms never carry a feature (their text could not be read back)
+        return map_atoms(c, lambda i, a: Atom(a.base, f) if (i == k and a.base not in PUNCT_BASES) else a)
     # flip one slash
     nodes = []
 
@@ -161,3 +163,35 @@ def instantiate(rng, pattern, binding, pool, slashes=('/', '\\')):
             binding[p.base] = rng.choice(pool)
         return binding[p.base]
     return rec(pattern)
+
+
+SPECIAL_EN = ['NP[conj]', 'S[dcl]\\NP[conj]', 'N[conj]', 'N[conj]/N[conj]', '(S\\NP)/NP[conj]', 'S[em]\\S[em]', 'conj', ',', '.',
+              'LRB', 'NP[nb]/N', 'S[X]/(S[X]\\NP)', '(S[X]\\NP)\\((S[X]\\NP)/NP)', 'S|NP', 'N[num]', 'S[dcl]\\S[conj]']
+
+_tree_cats = {}
+
+
+def tree_cats(lang):
+    """categories for arbitrary trees: the inventory plus spellings that sit on known edges
+    (a final `[conj]` feature, punctuation atoms, `|`, variables)"""
+    if lang not in _tree_cats:
+        cats = list(inventory(lang))
+        if lang == 'en':
+            cats += [Category.parse(s) for s in SPECIAL_EN] * 6
+        _tree_cats[lang] = cats
+    return _tree_cats[lang]
+
+
+_deep = {}
+
+
+def deep_pool(lang, rng, n=400):
+    """bindings for pattern variables that are themselves complex: inventory categories with at least
+    three atoms (incl. functors whose argument is a functor in non-final position) and random ones"""
+    if lang not in _deep:
+        inv = [c for c in inventory(lang) if 3 <= size(c) <= 7]
+        _deep[lang] = inv
+    base = _deep[lang]
+    atoms = en_atoms() if lang == 'en' else ja_atoms()
+    extra = [random_cat(rng, atoms, 3, slashes=['/', '\\'], p_atom=0.3) for _ in range(n // 2)]
+    return rng.sample(base, min(len(base), n // 2)) + [c for c in extra if size(c) >= 3]
